@@ -157,6 +157,7 @@ def ops_table():
         ("knot_remove[1],None", lambda c: c.knot_remove([F(1)], None), True),
         ("knot_remove[1,1]", lambda c: c.knot_remove([F(1), F(1)]), True), ("knot_remove[2,1]", lambda c: c.knot_remove([F(2), F(1)]), True), ("knot_remove[0]", lambda c: c.knot_remove([F(0)]), True),
         ("degree_increase(1)", lambda c: c.degree_increase(1), True), ("degree_increase(0)", lambda c: c.degree_increase(0), True),
+        ("degree_decrease(2)", lambda c: c.degree_decrease(2), True), ("degree-=2", lambda c: setattr(c, "degree", c.degree - 2), True),
         ("degree_decrease(1)", lambda c: c.degree_decrease(1), True), ("degree_decrease(1,None)", lambda c: c.degree_decrease(1, None), True),
         ("degree=-1", lambda c: setattr(c, "degree", -1), True), ("degree+=2", lambda c: setattr(c, "degree", c.degree + 2), True),
         ("knot_clean", lambda c: c.knot_clean(), True), ("degree_clean", lambda c: c.degree_clean(), True), ("clean", lambda c: c.clean(), True),
@@ -164,7 +165,8 @@ def ops_table():
         ("weights=bad", lambda c: setattr(c, "weights", ["x"] * c.npts), True),
         ("fit_points(short)", lambda c: c.fit_points([F(1)]), True), ("fit_points(ok)", lambda c: c.fit_points([F(i * i) for i in range(c.npts + 2)]), True),
         ("knotvector=other-interval", lambda c: setattr(c, "knotvector", [F(0), F(0), F(5), F(5)]), True),
-        ("split[1]", lambda c: c.split([F(1)]), False), ("split()", lambda c: c.split(), False), ("eval", lambda c: c([F(0), F(1, 3), F(3)]), False),
+        ("split[1]", lambda c: c.split([F(1)]), False), ("split()", lambda c: c.split(), False),
+        ("split[]+clean", lambda c: [q.clean() for q in c.split([])], False), ("split(ends)+insert", lambda c: [q.knot_insert([F(3, 2)]) for q in c.split([F(0), F(3)])], False), ("eval", lambda c: c([F(0), F(1, 3), F(3)]), False),
         ("eval-outside", lambda c: c(F(7)), False), ("c+other", lambda c: c + other(), False), ("c*other", lambda c: c * other(), False),
         ("c/other", lambda c: c / (other() + 5), False), ("-c", lambda c: -c, False), ("c==other", lambda c: c == other(), False),
         ("fraction", lambda c: c.fraction(), False), ("copy", lambda c: copy(c), False), ("Derivate", lambda c: calculus.Derivate(c), False),
@@ -184,6 +186,10 @@ STARTS["p1wonly"] = ([F(0), F(0), F(1), F(3), F(3)], None, [F(1), F(2), F(3)])
 STARTS["p2empty"] = ([F(0)] * 3 + [F(1)] + [F(3)] * 3, None, None)
 # a weighted curve with a zero control weight (its weight function has no zero): computing the new control points fails in apply (D28)
 STARTS["p2zero"] = ([F(0)] * 3 + [F(1)] + [F(3)] * 3, [F(1), F(2), F(3), F(4)], [F(1), F(0), F(1), F(1)])
+# a genuine quadratic stored with degree 3 (reducible exactly once: degree_decrease(2) must refuse and leave it untouched)
+_UQ = [F(0)] * 3 + [F(1)] + [F(3)] * 3
+_UC = [F(0)] * 4 + [F(1), F(1)] + [F(3)] * 4
+STARTS["p3once"] = (_UC, [sum(t * q for t, q in zip(row, [F(1), F(-2), F(4), F(0)])) for row in spec.refine_matrix(_UQ, 2, _UC, 3)], None)
 # a curve with redundant knots: knot 1 stored twice (one copy redundant) and knot 2 redundant, so that a multi-node removal can be
 # possible for its first node and impossible for a later one
 _U0 = [F(0)] * 3 + [F(1)] + [F(3)] * 3
@@ -267,6 +273,50 @@ def task_copies():
 task_copies.contract_fn = "curves.BaseCurve.__copy__"
 
 
+def task_float_operands():
+    """Projection / Intersection / split on float curves (a Bezier whose degree is reducible, a spline, a line): operands keep knot vector, control points
+    and weights, and the pieces of split are never the operand itself."""
+    fn = "advanced.Projection.point_on_curve"
+    import numpy as np
+    from compmec.nurbs.advanced import Intersection, Projection
+    out = []
+
+    def mk():
+        para = curves.Curve([0.0] * 4 + [3.0] * 4, [np.array([0., 0.]), np.array([1., 2 / 3]), np.array([2., 2 / 3]), np.array([3., 0.])])   # a parabola stored as a cubic
+        spl = curves.Curve([0.0] * 3 + [1.0] + [3.0] * 3, [np.array([0., 1.]), np.array([1., -1.]), np.array([2., 2.]), np.array([3., 0.])])
+        line = curves.Curve([0.0, 0.0, 3.0, 3.0], [np.array([0., -1.]), np.array([3., 2.])])
+        return dict(para=para, spl=spl, line=line)
+
+    def snap(c):
+        return (tuple(c.knotvector), c.degree, tuple(tuple(map(float, q)) for q in c.ctrlpoints), c.weights)
+    runs = [
+        ("Projection(para)", lambda d: Projection.point_on_curve(np.array([1., 1.]), d["para"])),
+        ("Projection(spl)", lambda d: Projection.point_on_curve(np.array([1., 1.]), d["spl"])),
+        ("Intersection(para,line)", lambda d: Intersection.curve_and_curve(d["para"], d["line"])),
+        ("Intersection(spl,para)", lambda d: Intersection.curve_and_curve(d["spl"], d["para"])),
+        ("split(para)()", lambda d: [q.clean() for q in d["para"].split()]),
+        ("split(para)([])", lambda d: [q.clean() for q in d["para"].split([])]),
+        ("split(line)(ends)", lambda d: [q.degree_increase(1) for q in d["line"].split([0.0, 3.0])]),
+    ]
+    for label, run in runs:
+        d = mk()
+        before = {k: snap(c) for k, c in d.items()}
+        try:
+            res = run(d)
+            note = "returned"
+        except (ValueError, TypeError, AssertionError, ZeroDivisionError, NotImplementedError) as e:
+            res, note = None, "raised %s" % type(e).__name__
+        changed = [k for k, c in d.items() if snap(c) != before[k]]
+        ok = not changed
+        out.append(ob("%s:operands-unchanged[%s]" % (fn, label), fn, PROVED if ok else FAILED, "B", "concrete", 0.0,
+                      "%s; operands %s" % (note, "unchanged" if ok else "CHANGED: %s now degree %s" % (changed, [d[k].degree for k in changed])),
+                      None if ok else dict(kind="c15.float", label=label)))
+    return out + [{"_stats": dict(cases=len(runs))}]
+
+
+task_float_operands.contract_fn = "advanced.Projection.point_on_curve"
+
+
 def task_find_roots_length():
     """Engine B for the assumed clause of A11: the real heavy.find_roots refuses a value list whose length differs from npts with ValueError."""
     fn = "heavy.find_roots"
@@ -302,12 +352,16 @@ task_find_roots_length.contract_fn = "heavy.find_roots"
 def tasks(tier, seed):
     from ..pyvc.driver import verify
     from ..contracts import curvesv
-    ts = [(task_frames, ()), (task_copies, ()), (task_find_roots_length, ())]
+    ts = [(task_frames, ()), (task_copies, ()), (task_find_roots_length, ()), (task_float_operands, ())]
     ts += [(verify, (c, m, q, v)) for c, m, q, v in curvesv.ALL if "eval" not in c.name]
     depth = 2 if tier == "quick" else 3
     nch = 4 if tier == "quick" else 16
     for start in STARTS:
         if start == "p2red" and tier == "quick":
+            for c in range(2):
+                ts.append((task_histories, (start, 2, c, 2)))
+            continue
+        if start == "p3once" and tier == "quick":
             for c in range(2):
                 ts.append((task_histories, (start, 2, c, 2)))
             continue
@@ -321,6 +375,9 @@ def tasks(tier, seed):
 
 def replay(o):
     w = o["witness"]
+    if w["kind"] == "c15.float":
+        r = [x for x in task_float_operands() if "id" in x and ("[%s]" % w["label"]) in x["id"]][0]
+        return r["status"] == FAILED, "operands unchanged", r["detail"]
     if w["kind"] != "c15.history":
         return False, "", "not replayed"
     ops = {n: (f, m) for n, f, m in ops_table()}
